@@ -103,11 +103,45 @@ def send_sources(st):
             yield from sources_of(it["s"])
 
 
-def grants(inp):
-    """(account, asset) -> None (unbounded) | largest overdraft the text attaches to it"""
+class _Outside(Exception):
+    pass
+
+
+def dest_accounts(d, acct_of):
+    """the accounts a destination tree can send to; None when one of them cannot be evaluated from the input"""
+    out = set()
+
+    def kd(k):
+        if k["k"] == "to":
+            walk(k["d"])
+
+    def walk(d):
+        if d["k"] == "acct":
+            a = acct_of(d["e"])
+            if a is None:
+                raise _Outside()
+            out.add(a)
+        elif d["k"] == "inorder":
+            for c in d["caps"]:
+                kd(c["kd"])
+            kd(d["rest"])
+        else:
+            for i in d["items"]:
+                kd(i["kd"])
+    try:
+        walk(d)
+    except (_Outside, KeyError, TypeError):
+        return None
+    return out
+
+
+def send_table(inp):
+    """one entry per send statement, in script order: the asset its amount names, the overdraft each of ITS source occurrences is
+    granted — {(account, asset): None (unbounded / @world) | largest bound} —, its source accounts and the accounts its destination
+    can reach (None = not all of them can be evaluated from the input).  Python evaluation of the text, no Lean model."""
     env, bal, acct_of, asset_of = resolve_env(inp)
-    g = {}
-    for st in inp["ast"]["stmts"]:
+    table = []
+    for pos, st in enumerate(inp["ast"]["stmts"]):
         if st["k"] != "send":
             continue
         amt = st["amt"]
@@ -119,8 +153,13 @@ def grants(inp):
                 e = e["l"]
             m = eval_mon(e, env, asset_of)
             sasset = m[0] if m else None
+        g, srcs, unknown = {}, set(), False
         for s in send_sources(st):
             a = acct_of(s["e"])
+            if a is None:
+                unknown = True
+            else:
+                srcs.add(a)
             od = s.get("od")
             if s["e"]["k"] == "acct" and s["e"]["v"] == "world":
                 key, val = (a, sasset), None
@@ -131,8 +170,26 @@ def grants(inp):
             else:
                 m = eval_mon(od["e"], env, asset_of)
                 if not m:
+                    unknown = True     # a bound that cannot be evaluated: this send grants an unknown amount
                     continue
                 key, val = (a, m[0]), m[1]
+            if key in g and (g[key] is None or val is None):
+                g[key] = None
+            elif key in g:
+                g[key] = max(g[key], val)
+            else:
+                g[key] = val
+        table.append({"stmt": pos, "asset": sasset, "grants": g, "srcs": None if unknown else srcs, "unknown_grant": unknown,
+                      "dsts": dest_accounts(st["dst"], acct_of)})
+    return table, bal
+
+
+def grants(inp):
+    """(account, asset) -> None (unbounded) | largest overdraft the text attaches to it ANYWHERE in the script"""
+    table, bal = send_table(inp)
+    g = {}
+    for t in table:
+        for key, val in t["grants"].items():
             if key in g and (g[key] is None or val is None):
                 g[key] = None
             elif key in g:
@@ -142,11 +199,43 @@ def grants(inp):
     return g, bal
 
 
+def attribute(table, postings):
+    """for each posting, the sends (indices into `table`) it can come from, given that a send only moves its own asset (or the asset
+    of one of its overdraft clauses) from its own sources to its own destinations, and that the postings of the statements come in
+    the order of the statements.  None when the postings have no such reading."""
+    feas = []
+    for src, dst, _, asset in postings:
+        feas.append([k for k, t in enumerate(table)
+                     if (t["srcs"] is None or src in t["srcs"]) and (t["dsts"] is None or dst in t["dsts"])
+                     and (t["asset"] is None or asset == t["asset"] or any(asset == ga for _, ga in t["grants"]))])
+    lo, cur = [], 0
+    for c in feas:
+        c = [k for k in c if k >= cur]
+        if not c:
+            return None
+        cur = min(c)
+        lo.append(cur)
+    hi, cur = [0] * len(feas), len(table) - 1
+    for n in range(len(feas) - 1, -1, -1):
+        c = [k for k in feas[n] if k <= cur]
+        if not c:
+            return None
+        cur = max(c)
+        hi[n] = cur
+    return [[k for k in feas[n] if lo[n] <= k <= hi[n]] for n in range(len(feas))]
+
+
 def floor_violations(inp, out):
-    """C01: replay the postings in order against the balances the script was run against"""
+    """C01: replay ALL postings of the script, in order, on the balances it was run against (Python integers: no bound on the
+    magnitudes).  A posting that takes from a non-world account must leave it at or above -(the overdraft granted to that account by
+    the SEND the posting belongs to): a bound granted by one statement — or `allowing unbounded overdraft` in one statement — does not
+    license what another statement takes.  Which statement a posting belongs to is read off the output alone (`attribute`); where
+    several statements are possible the most generous of them counts, where none can be found the most generous of the whole text."""
     if "postings" not in out:
         return []
-    g, bal = grants(inp)
+    table, bal = send_table(inp)
+    g, _ = grants(inp)
+    owners = attribute(table, out["postings"])
     R = dict(bal)
     v = []
     for n, (src, dst, amt, asset) in enumerate(out["postings"]):
@@ -154,10 +243,14 @@ def floor_violations(inp, out):
         if amt < 0:
             v.append(("negative-posting", "posting %d has a negative amount %d" % (n, amt)))
         if src != "world":
-            gr = g.get((src, asset), 0)
+            gr, by = g.get((src, asset), 0), "the script"
+            if owners is not None and owners[n] and not any(table[k]["unknown_grant"] for k in owners[n]):
+                grs = [table[k]["grants"].get((src, asset), 0) for k in owners[n]]
+                gr = None if any(x is None for x in grs) else max(grs)
+                by = "its statement (no. %s)" % "/".join(str(table[k]["stmt"] + 1) for k in owners[n])
             after = R.get((src, asset), 0) - amt
             if gr is not None and amt > 0 and after < -gr:
-                v.append(("floor", "posting %d takes %d %s from %s leaving %d, below -(granted overdraft %d)" % (n, amt, asset, src, after, gr)))
+                v.append(("floor", "posting %d takes %d %s from %s leaving %d, below -(overdraft %d granted by %s)" % (n, amt, asset, src, after, gr, by)))
         R[(src, asset)] = R.get((src, asset), 0) - amt
         R[(dst, asset)] = R.get((dst, asset), 0) + amt
     return v
@@ -310,10 +403,6 @@ def compare_bytecode(ctx, inputs, impl, model):
 
 # ---- C03, ordering clause: "in an ordered list of sources a later one contributes only when the earlier ones have
 # given all they can", evaluated on the postings alone for the fragment where it is easy to state without the Lean Spec
-
-class _Outside(Exception):
-    pass
-
 
 def ordered_expectation(inp):
     """None when the script is outside the fragment; else dict(asset, amount, dest, leaves, repeated, expected) where
